@@ -1,7 +1,7 @@
 SPECIFICATION Spec
 CONSTANTS
   Emit = TRUE
-  Queries = {"print", "screen", "tv", "all", "PRINT", "ALL", "not print", "only screen and (color: #fff)", "screen and (min-width: 400px) and (color)", "(max-width: 20em)", "print and (min-resolution: 2)"}
+  Queries = {"print", "screen", "tv", "all", "PRINT", "ALL", "not print", "only screen and (color: #fff)", "screen and (min-width: 400px) and (color)", "(max-width: 20em) and (min-width: 10px) and (color)", "print and (min-resolution: 2)"}
   TextTypes = {"print", "screen", "PRINT", "tv"}
   MaxLen = 3
   MaxHist = 5
